@@ -52,6 +52,26 @@ def gen_case(tier, seed, k):
     for c in m.cols:
         c.isint = 0
     L = model.script_any(m, "p0", rnd) + ["set_param p0 5 3000"]
+    if rnd.random() < 0.35:
+        # deletions interleaved with name lookups before the basis is written and read: the basis file is resolved by name, so the
+        # name tables must follow every renumbering
+        for _ in range(rnd.randint(1, 3)):
+            if m.ncols > 2 and rnd.random() < 0.6:
+                op = ("delete_cols", rnd.sample(range(m.ncols - 1), rnd.randint(1, min(2, m.ncols - 2))))
+                look = "get_column_index p0 %s" % m.cols[-1].name
+            elif m.nrows > 2:
+                op = ("delete_rows", rnd.sample(range(m.nrows - 1), rnd.randint(1, min(2, m.nrows - 2))))
+                look = "get_row_index p0 %s" % m.rows[-1].name
+            else:
+                break
+            m.apply(op)
+            L += [model.render(op, "p0"), look]
+            if rnd.random() < 0.5 and m.ncols > 1:
+                # now a single deletion in the middle
+                j = rnd.randrange(m.ncols - 1)
+                op = ("delete_col", j)
+                m.apply(op)
+                L += [model.render(op, "p0"), "get_column_index p0 %s" % m.cols[-1].name]
     mode = rnd.choice(["solver", "solver", "random", "random", "own"])
     ext = rnd.choice(["", "", ".gz", ".bz2"])
     f1 = "@W@/b1.bas" + ext
